@@ -501,6 +501,19 @@ MCORPUS = [
 ]
 
 
+def group_with_big_jump(toks):
+    """the binary AST text cannot tell a group that ends the expression from the tail of the top-level concatenation: a large lazy
+    `.{n,m}?` inside such a group is not a chaining point in re.c; regexes with a group and a large lazy dot range are left out
+    of the chain-structure comparison"""
+    import re as _re
+    try:
+        src = bytes.fromhex(toks.get("src", "")).decode("latin1")
+    except ValueError:
+        return False
+    big = any(int(a) > 200 or int(b) > 200 for a, b in _re.findall(r"Jl(\d+),(\d+)", toks.get("re", "")))
+    return big and "(" in src
+
+
 def clean_out(pid):
     from vf.checks import c02
     c02.clean_out(pid)
@@ -678,12 +691,14 @@ def run(tier, replay=None):
     found = found or wfound
     ares, afound = rc.check_atoms(core, chk, cases, imap, amap, found_so_far=found) if lres.get("driver_ok") else ({}, False)
     found = found or afound
+    cres, cfound = rc.check_chain(core, chk, cases, amap, skip=group_with_big_jump) if lres.get("driver_ok") else ({}, False)
+    found = found or cfound
     chk.cov.update({
         "evaluations": len(cases), "distinct_nontrivial": len(distinct),
         "rule": "generated regex (<=12 AST nodes) x buffer (<=200 bytes) built from sampled instances / mutations; non-trivial = the specification admits at least one match "
                 "in the buffer (strings) or any verdict (matches operator); distinct (regex, modifiers, buffer)",
         "histogram": hist, "violating_cases": nviol, "known_finding_cases": {k: len(v) for k, v in known_hits.items()},
-        "traces_validated_against_impl": len(cases) - nviol, "fx": fxres.get("cov"), "wfx": wres, "atoms_tie": ares,
+        "traces_validated_against_impl": len(cases) - nviol, "fx": fxres.get("cov"), "wfx": wres, "atoms_tie": ares, "chain_tie": cres,
         "samples": [{"meta": metas.get(c.split(" ", 1)[0]), "implementation": imap.get(c.split(" ", 1)[0], "")[:300], "model": mmap.get(c.split(" ", 1)[0], "")[:300]}
                     for c in cases[len(CORPUS):len(CORPUS) + 2]],
     })
